@@ -31,6 +31,8 @@ type storeCfg struct {
 	IOConc      int
 	FileSize    int
 	NTx         int
+	VCache      int  // value-log cache entries (0 = off)
+	TxCache     int  // tx-log cache entries (0 = the store's default)
 	Full        bool // every single bit of every record/value byte is flipped; otherwise value extents + value references only
 	Seed        int64
 }
@@ -46,7 +48,7 @@ func (cf storeCfg) format() string {
 	if cf.Embedded {
 		v = "embedded"
 	}
-	return fmt.Sprintf("%s/hdr-v%d/vlogs%d", v, cf.HdrVersion, cf.IOConc)
+	return fmt.Sprintf("%s/hdr-v%d/vlogs%d/vcache%d", v, cf.HdrVersion, cf.IOConc, cf.VCache)
 }
 
 func (cf storeCfg) options() *store.Options {
@@ -57,8 +59,11 @@ func (cf storeCfg) options() *store.Options {
 		WithWriteTxHeaderVersion(cf.HdrVersion).
 		WithMaxIOConcurrency(cf.IOConc).
 		WithFileSize(cf.FileSize).WithWriteBufferSize(1024).
-		WithTxLogCacheSize(4).WithVLogCacheSize(0).
+		WithVLogCacheSize(cf.VCache).
 		WithMaxActiveTransactions(8).WithMaxWaitees(8)
+	if cf.TxCache > 0 {
+		o.WithTxLogCacheSize(cf.TxCache)
+	}
 	o.WithIndexOptions(o.IndexOpts.WithMaxNodeSize(1024).WithCacheSize(32).WithMaxActiveSnapshots(4).WithRenewSnapRootAfter(0).WithFlushBufferSize(1 << 14))
 	o.WithAHTOptions(o.AHTOpts.WithWriteBufferSize(4096)) // the default (16 MiB per file, three files) costs more to clear than the whole case
 	return o
